@@ -45,6 +45,8 @@ const CLASSES: &[Class] = &[
     Class { forms: &["x", "\\x", "\\78", "\\78 "], extra: &[] },
     // hex letter (matters after a hex escape)
     Class { forms: &["a", "\\61 "], extra: &["\\61"] },
+    // upper-case hex letter (escape terminators must also be kept before these)
+    Class { forms: &["B"], extra: &["\\42 "] },
     // digit
     Class { forms: &["1", "\\31 "], extra: &["\\000031"] },
     // space
